@@ -452,10 +452,18 @@ func checkC04(p *Prog, res *Result, tier string) {
 			mi, ok := c.Common().Args[1].(*ssa.MakeInterface)
 			return ok && !isNilConst(mi.X)
 		}
-		ins, path := searchFrom(sink.Blocks[0], 0, searchOpts{
-			stop: isStore,
-			bad:  func(ins ssa.Instruction) bool { _, ok := ins.(*ssa.Return); return ok },
-			skipEdge: func(from *ssa.BasicBlock, si int) bool {
+		// the store may sit in a helper the sink hands the event to: search the sink's region (its chain)
+		rg := &fnRegion{root: sink, descend: func(g *ssa.Function) bool { return r.inSinkChain(g) }}
+		ins, _, pathStr := rg.search(&frame{fn: sink}, sink.Blocks[0], 0, superOpts{
+			stop: func(i ssa.Instruction, _ *frame) bool { return isStore(i) },
+			bad: func(i ssa.Instruction, fr *frame) bool {
+				_, ok := i.(*ssa.Return)
+				return ok && fr.parent == nil
+			},
+			skipEdge: func(from *ssa.BasicBlock, si int, fr *frame) bool {
+				if fr.parent != nil {
+					return false
+				}
 				cf := edgeFact(edge{from, si})
 				if cf.X == nil {
 					return false
@@ -472,7 +480,7 @@ func checkC04(p *Prog, res *Result, tier string) {
 		})
 		construct := funcName(sink) + ": slot store"
 		if ins != nil {
-			res.bad("C04-R2", construct, p.pos(ins.Pos()), "a path with a non-zero revision returns without storing the event into the slot array: "+blockPath(p, path))
+			res.bad("C04-R2", construct, p.pos(ins.Pos()), "a path with a non-zero revision returns without storing the event into the slot array"+pathStr)
 		} else {
 			res.ok("C04-R2", construct, p.pos(sink.Pos()), "every return is either guarded by revision == 0 or preceded by the slot store")
 		}
